@@ -30,6 +30,18 @@ def run(prog, chk):
     chk.rule('R03.3', 'every floating-point division in the simulator has a provably non-zero divisor')
     chk.rule('R03.4', 'qubit index ownership: who allocates, who frees, who reuses')
     chk.rule('R03.5', 'object fields never receive a qubit handle the object did not allocate')
+    # two qubit fields of one object are two qubits only if they have two slots: a class that copies its base's layout before the base was
+    # populated puts its own fields on the base's offsets (`Top.r` and `Bottom.q` both at slot 0 — one simulator qubit, one release).
+    # The rule is C10's R10.2 (base first, also through a generic template in the middle of the chain), run here as part of R03.4
+    from . import C10 as _c10
+    _sub10 = _Sub(chk)
+    _c10.run(prog, _sub10)
+    _n10 = 0
+    for rule_, fn_, site_, ok_, detail_, key_ in _sub10.obs:
+        if rule_ == 'R10.2':
+            _n10 += 1
+            chk.ob('R03.4', fn_, site_, ok_, 'distinct slots for distinct qubit fields — layout order: ' + detail_, key='layout:' + str(key_))
+    chk.count('layout-order obligations (C10 R10.2)', _n10, 1)
     sim = R.sim_classify()
     amp = R.amp_field
     cnt = R.sim_count_field
